@@ -18,6 +18,7 @@ class Relay:
         self.target = target_port
         self.limit, self.mode = None, 'cut'
         self.live = None
+        self.faulty, self.accepted = 0, 0
         self.delivered = 0
         self.stream = b''
         self.ls = socket.socket(); self.ls.setsockopt(socket.SOL_SOCKET, socket.SO_REUSEADDR, 1)
@@ -37,6 +38,9 @@ class Relay:
             except OSError:
                 c.close(); continue
             limit, mode = self.limit, self.mode
+            if self.faulty:
+                self.faulty -= 1; limit, mode = 10, 'cut'          # this connection too is cut, inside the Register reply
+            self.accepted += 1
             self.delivered = 0; self.stream = b''
             threading.Thread(target=self.up, args=(c, b), daemon=True).start()
             threading.Thread(target=self.down, args=(b, c, limit, mode), daemon=True).start()
@@ -293,9 +297,12 @@ def run(ctx):
             pstarts.append(i); i += 24 + struct.unpack('<H', pstream[i + 2:i + 4])[0]
         # every k-th offset, and the field boundaries of every reply's header (where an interrupted parse ends differently)
         poffs = sorted(set(range(0, ptotal, 1 if ctx.thorough else 13)) | {28, 29, ptotal - 1} | {b + d for b in pstarts for d in (2, 4, 8, 12, 20, 24) if b + d < ptotal})
-        for n in poffs:
-            relay.limit, relay.mode = n, 'cut'
-            via = proxy(host='127.0.0.1', port=relay.port, timeout=1.0, depth=2)
+        # ... and replies that stop arriving strictly inside a frame while the connection stays up (the proxy's timeout expires)
+        inside = [n for n in poffs if n > 28 and n not in pstarts]
+        moffs = inside if ctx.thorough else [inside[k] for k in sorted({0, len(inside) // 3, len(inside) // 2, len(inside) - 2, len(inside) - 1})]
+        for n, mode in [(n, 'cut') for n in poffs] + [(n, 'mute') for n in moffs]:
+            relay.limit, relay.mode = n, mode
+            via = proxy(host='127.0.0.1', port=relay.port, timeout=1.0 if mode == 'cut' else 0.4, depth=2)
             got, err = [], None
             try:
                 with via:
@@ -304,12 +311,12 @@ def run(ctx):
             except Exception as e:
                 err = type(e).__name__
             ncut += 1
-            w = dict(api='proxy.read', delivered_bytes=n, of=ptotal, results=got, error=err, expected=good)
+            w = dict(api='proxy.read', delivered_bytes=n, of=ptotal, fault=mode, results=got, error=err, expected=good)
             if got != good[:len(got)] or (err is None and len(got) != len(good)):
                 bad(w, 'proxy.read yielded wrong or silently fewer results under a cut connection'); via.close_gateway(); continue
             if err is not None and via.gateway is not None:
                 bad(w, 'after a failed use the proxy did not discard its connection'); via.close_gateway(); continue
-            relay.limit = None
+            relay.limit, relay.mode = None, 'cut'
             try:
                 with via:
                     again = [canon(v) for v in via.read(tags)]
@@ -373,7 +380,9 @@ def run(ctx):
         # ---- poll.run on top of the proxy: a good poll, then the device changes and the next poll's replies are cut: the values of the
         # good poll must not be handed to the consumer again as if they were the failed poll's; the poll after that reconnects and is right
         from cpppo.server.enip import poll as P
-        for cut_after in ((5, 9, 24 + 30) if not ctx.thorough else (0, 5, 9, 24, 24 + 30, 60, 100)):
+        for cut_after in ((5, 9, 24 + 30, -9) if not ctx.thorough else (0, 5, 9, 24, 24 + 30, 60, 100, -9, -30)):
+            # (negative: the two connections the proxy opens next are cut as well - three failed polls in a row, each to be reported)
+            more_faults, cut_after = (2, -cut_after) if cut_after < 0 else (0, cut_after)
             relay.live, relay.limit, relay.mode = None, None, 'cut'
             with client.connector(host='127.0.0.1', port=port, timeout=3) as c0:
                 list(c0.operate(list(client.parse_operations(['SCADA[1]=(INT)1001', 'D[3]=(DINT)70003', 'SCADA[50-52]=(INT)1050,1051,1052'])), depth=0, timeout=3))
@@ -389,6 +398,7 @@ def run(ctx):
                         with client.connector(host='127.0.0.1', port=port, timeout=3) as c1:
                             list(c1.operate(list(client.parse_operations(['SCADA[1]=(INT)2001', 'D[3]=(DINT)80003', 'SCADA[50-52]=(INT)2050,2051,2052'])), depth=0, timeout=3))
                         relay.live = relay.delivered + cut_after
+                        relay.faulty = more_faults
                     elif fails:
                         process.done = True
 
@@ -410,8 +420,12 @@ def run(ctx):
             new = [[2001], [80003], [2050, 2051, 2052]]
             w = dict(api='poll.run', cut_bytes_into_second_poll=cut_after, failures=fails, delivered_to_consumer=seen)
             stale = [x for x in seen if x[0] >= 1 and x[2] in good and x[2] not in new]
+            w['consecutive_faulted_polls'] = 1 + more_faults
+            relay.faulty = 0
             if not fails:
                 bad(w, 'poll.run reported no failure although the second poll was cut')
+            elif len(fails) < 1 + more_faults:
+                bad(w, 'poll.run reported %d failures for %d consecutive polls that failed' % (len(fails), 1 + more_faults))
             elif stale:
                 bad(w, 'after a failed poll the consumer was handed the previous poll\'s values again (the device holds different ones)')
             elif [x[2] for x in seen if x[0] == len(fails)][-len(tags):] != new:
